@@ -474,12 +474,12 @@ func checkC04(c *Ctx) (string, bool, []string) {
 	defer os.RemoveAll(tmp)
 	nsh := c.Workers
 	type child struct {
-		cmd                    *exec.Cmd
-		out, journal, hashes   string
-		stderr                 string
-		err                    error
-		done                   chan struct{}
-		killedByWatchdog       bool
+		cmd                  *exec.Cmd
+		out, journal, hashes string
+		stderr               string
+		err                  error
+		done                 chan struct{}
+		killedByWatchdog     bool
 	}
 	watchdog := 15 * time.Minute
 	if c.Thorough() {
